@@ -56,6 +56,17 @@ CORPORA = {
                                   Rounds=2),
                       parts=16, max_runs=500000),
     ),
+    # four threads (thorough tier only): sorted vs retrying vs single, overlapping pairs of three locks
+    "conc4": dict(
+        module="MC.tla",
+        quick=dict(consts=dict(Kinds={"boxed", "retry"}, ApisA={"lock"}, CallsB={("boxed", (2, 1), "lock"), ("single", (1,), "lock")},
+                               UnivA={1, 2}, MinLenA=2, MaxLenA=2, Policies={"WP"}, NT=4, Keys={"owned"}),
+                   parts=14, max_runs=100000),
+        thorough=dict(consts=dict(Kinds={"boxed", "retry", "ref"}, ApisA={"lock", "read"},
+                                  CallsB={("boxed", (2, 1), "lock"), ("retry", (4, 2), "lock"), ("single", (1,), "read")},
+                                  UnivA={1, 2, 4}, MinLenA=2, MaxLenA=2, Policies={"WP"}, NT=4, Keys={"owned"}),
+                      parts=16, max_runs=300000),
+    ),
     # three threads: rings and mixed kinds over three top-level locks
     "conc3": dict(
         module="MC.tla",
@@ -257,13 +268,13 @@ CORPORA.update({
 })
 
 PROPS = {
-    "C01": dict(corpora=["conc2", "size3", "conc3", "nest", "conc2x2"], design="DESIGN.md §5 C01"),
+    "C01": dict(corpora=["conc2", "size3", "conc3", "nest", "conc2x2", "conc4"], design="DESIGN.md §5 C01"),
     "C02": dict(corpora=["conc2", "size3", "nest"], design="DESIGN.md §5 C02"),
     "C03": dict(corpora=["conc2", "size3", "seqapi", "conc2x2"], design="DESIGN.md §5 C03"),
     "C04": dict(corpora=["conc2", "size3", "nest"], design="DESIGN.md §5 C04"),
     "C05": dict(corpora=["conc2", "size3", "seqapi", "ops", "conc2x2"], design="DESIGN.md §5 C05"),
     "C08": dict(corpora=["conc2", "size3"], design="DESIGN.md §5 C08"),
-    "C09": dict(corpora=["conc2", "size3", "conc3", "nest"], design="DESIGN.md §5 C09"),
+    "C09": dict(corpora=["conc2", "size3", "conc3", "nest", "conc4"], design="DESIGN.md §5 C09"),
     "C13": dict(corpora=["conc2", "seqapi"], design="DESIGN.md §5 C13"),
     "C06": dict(corpora=["seqkey", "seqkey2"], design="DESIGN.md §5 C06"),
     "C10": dict(corpora=["panic", "poisonseq"], design="DESIGN.md §5 C10"),
